@@ -315,6 +315,9 @@ fn own_c01(m: &Mis, op: &Op, _pre: &Model) -> Option<String> {
 }
 
 fn own_c03(m: &Mis, _op: &Op, _pre: &Model) -> Option<String> {
+    if m.aspect == "sweep-semantic" && (m.class == "swept-not-due" || m.class == "swept-no-ttl") {
+        return Some(format!("C03/lost-live-key/seq,by-sweep,{}", m.class));
+    }
     if m.aspect == "read" && (m.ctx.contains("state=live,") || m.ctx.contains("state=live-ttl,")) {
         let class = if m.class == "missing" { "lost-live-key" } else { "altered-value" };
         return Some(format!("C03/{}/seq,{}", class, ctx_state(m)));
@@ -385,6 +388,9 @@ fn own_c07(m: &Mis, op: &Op, pre: &Model) -> Option<String> {
 }
 
 fn own_c08(m: &Mis, op: &Op, pre: &Model) -> Option<String> {
+    if m.aspect == "sweep-semantic" && (m.class == "swept-not-due" || m.class == "swept-no-ttl") && m.ctx == "last=upsert" {
+        return Some(format!("C08/accepted-upsert-lost-to-sweep/seq,{}", m.class));
+    }
     let upsert_step = matches!(op, Op::Upsert { .. })
         || (matches!(op, Op::AwaitAll) && pre.pending.iter().any(|p| matches!(p, Op::Upsert { .. })));
     if upsert_step {
@@ -393,7 +399,6 @@ fn own_c08(m: &Mis, op: &Op, pre: &Model) -> Option<String> {
             "status" => Some(format!("C08/status-{}/{}", m.class, ctx_state(m))),
             "store" => Some("C08/field-not-applied-or-other-field-changed/store".to_string()),
             "weights" | "weight_used" => Some(format!("C08/weight-not-applied/{}", m.aspect)),
-            "admission" => Some(format!("C08/absent-not-put-like/{}", m.class)),
             _ => None,
         };
     }
@@ -407,6 +412,9 @@ fn own_c08(m: &Mis, op: &Op, pre: &Model) -> Option<String> {
 }
 
 fn own_c09(m: &Mis, _op: &Op, pre: &Model) -> Option<String> {
+    if m.aspect == "sweep-semantic" && (m.class == "swept-not-due" || m.class == "swept-no-ttl") {
+        return Some(format!("C09/hidden-before-expiry/seq,by-sweep,{}", m.class));
+    }
     if m.aspect != "read" {
         return None;
     }
@@ -433,13 +441,14 @@ fn own_c10(m: &Mis, _op: &Op, _pre: &Model) -> Option<String> {
 }
 
 fn own_c16(m: &Mis, _op: &Op, _pre: &Model) -> Option<String> {
-    // KeysUpdated is not part of the stated identities (an implementation may or may not count a
-    // weight-preserving upsert as an update): it is predicted by the model but not owned by C16
-    if m.aspect == "stats.keys_updated" {
-        return None;
+    // only what the statement says: the identities (lookups, keys, weight), the number of puts refused
+    // by admission, and the hit ratio. The individual counters are predicted by the model too, but
+    // their exact values are not C16's business.
+    if m.aspect == "stats.identity" {
+        return Some(format!("C16/{}/seq", m.class));
     }
-    if m.aspect.starts_with("stats.") {
-        return Some(format!("C16/{}/{}", m.aspect, m.class));
+    if m.aspect == "stats.keys_rejected" {
+        return Some("C16/rejected/seq".to_string());
     }
     if m.aspect == "hit_ratio" {
         return Some(format!("C16/hit-ratio/{}", m.ctx));
